@@ -54,6 +54,8 @@ func main() {
 		fmt.Println(string(b))
 	case "replay":
 		os.Exit(cmdReplay(os.Args[2:]))
+	case "matrix":
+		os.Exit(cmdMatrix(os.Args[2:]))
 	default:
 		usage()
 	}
